@@ -416,7 +416,7 @@ def layoutMultX (c : MCfg) (p : XP) (cx : XCtx) (t : List Byte) : XArg â†’ XSt â
         | .space =>
           let diff := multCodeFill cx.k (subCodeFill cx.k st'.fill st.fill) (n.toNat - 1)
           .ok (st'.withFill (incCodeFillBy cx.k st'.fill diff))
-        | .none => .silent
+        | .none => .ok st'      -- the body laid nothing (only DUPs with count <= 0): nothing to replicate (repair b951363; silent failure before)
       | r => r
   | .q, st =>
     match setDSX st .space with
